@@ -734,8 +734,51 @@ def _inwords_tabulate(ctx) -> None:
             ctx.established(("INWORDS", "LOCALE.default"), f"{cls}.in_words", "INWORDS.tabulated")
 
 
+def _ordinalize_tabulate(ctx) -> None:
+    """ORDINALIZE.tabulated: Locale.ordinalize (and what it reaches: ordinal(), get()) run by the checker's interpreter on the data of every
+    shipped locale for the numbers 0..130, 200, 1000 (every value a day, a month, a quarter, a week or a day of the year can take reaches
+    every ordinal class of every locale): the result is the number followed by the locale's suffix for its class - the bare number where the
+    locale has no suffix for it - and no exception."""
+    from ..rules import fmtstub, minieval
+    try:
+        wd = fmtstub.World()
+    except fmtstub.ERRORS as e:
+        ctx.unverified("ORDINALIZE.tabulated", "Locale.ordinalize", f"outside the checker's interpreter: {type(e).__name__}: {str(e)[:160]}", "src/pendulum/locales/locale.py")
+        return
+    if "ordinalize" not in wd.lmeths:
+        ctx.unverified("ORDINALIZE.tabulated", "Locale.ordinalize", "method not found", wd.lm.rel)
+        return
+    lfuncs = {**{st.name: st for st in wd.lm.top() if isinstance(st, ast.FunctionDef)}, "$globals": {**minieval.module_consts(wd.lm), "re": fmtstub.RE, "cast": lambda t, v: v}}
+    nums = list(range(0, 131)) + [200, 1000]
+    for loc in sorted(p_.name for p_ in (core.REPO / "src/pendulum/locales").iterdir() if p_.is_dir() and (p_ / "locale.py").exists()):
+        bad = []
+        try:
+            L = wd.load_locale(loc)
+            data = vars(L)["_data"]
+            suffixes = (data.get("custom") or {}).get("ordinal") or {}
+            for n_ in nums:
+                try:
+                    got = minieval.call(wd.lmeths["ordinalize"], [L, n_], {}, lfuncs)
+                except minieval.Raised as e:
+                    bad.append(f"ordinalize({n_}) raises {e.exc_name}")
+                    continue
+                except (KeyError, IndexError) as e:      # a plain container of the locale data indexed with a key it does not have: what the code does at run time
+                    bad.append(f"ordinalize({n_}) raises {type(e).__name__}({e})")
+                    continue
+                cls_ = data["ordinal"](n_) if callable(data.get("ordinal")) else None
+                want = f"{n_}{suffixes.get(cls_) or ''}" if isinstance(suffixes, dict) else None
+                if not isinstance(got, str) or not got.startswith(str(n_)) or (want is not None and got != want):
+                    bad.append(f"ordinalize({n_}) = {got!r}" + (f" (expected {want!r})" if want is not None else ""))
+        except fmtstub.ERRORS as e:
+            ctx.unverified("ORDINALIZE.tabulated", f"{loc}/ordinalize", f"outside the checker's interpreter: {type(e).__name__}: {str(e)[:160]}", f"src/pendulum/locales/{loc}/locale.py")
+            continue
+        ctx.ob("ORDINALIZE.tabulated", f"{loc}/ordinalize", not bad, f"{len(nums)} numbers: " + (f"wrong: {bad[:4]}" if bad else "the number and the suffix of its class, no exception"),
+               f"src/pendulum/locales/{loc}/locale.py")
+
+
 def run(ctx) -> None:
     ctx.explanation = EXPLANATION
+    ctx.step(_ordinalize_tabulate, ctx)
     ctx.step(_inwords_tabulate, ctx)
     m0 = pmod("formatting.difference_formatter")
     keys_by_value = ctx.step(_human_tabulate, ctx, m0, m0.func("DifferenceFormatter.format"))
